@@ -45,6 +45,8 @@ Record job := mkJob {
   ttl : Z;            (* Spec.TTL in seconds, 0 = none; creation time is 0 *)
   pvalid : bool;      (* Spec.PodRef has namespace and name *)
   owner : Z;          (* 0: no created-by annotation; g+1: created by controller generation g *)
+  tmpl : Z;           (* Spec.ReservationOptions.Template as supplied by the user: 0 none; else o*4 + a with
+                         a = 1 AllocateOnce nil, 2 true, 3 false and o = 0 no Owners, 1 a controller owner, 2 an object owner *)
   puid : Z;           (* Spec.PodRef.UID, 0 = empty *)
   rref : bool;        (* Spec.ReservationOptions.ReservationRef set *)
   phase : Z; sstatus : Z; reason : Z;
@@ -59,7 +61,8 @@ Record res := mkRes {
   rexpired : bool; (* has a Ready condition with reason Expired *)
   rowner : Z;
   rbound : Z;      (* uid of Status.CurrentOwners[0], 0 = none *)
-  rneedp : bool; rpdone : bool  (* answers of the Preemption extension point *)
+  rneedp : bool; rpdone : bool;  (* answers of the Preemption extension point *)
+  ronce : bool     (* extension.IsReservationAllocateOnce: Spec.AllocateOnce is nil or true *)
 }.
 
 Record pod := mkPod { uid : Z; pnode : Z; psched : Z (* 0 no PodScheduled condition, 1 False, 2 True *); pctrl : bool }.
@@ -70,8 +73,11 @@ Record stamp := mkStamp {
   st_needp : bool; st_pdone : bool;
   st_puid : Z (* 0 = no pod *); st_pnode : Z }.
 
-Inductive ekind := EEvict | ECreate | EDelete.
-Record effect := mkEff { ek : ekind; eok : bool; est : stamp }.
+(* EWrite = a successful write of the job (Update or Status().Update); [eph] = the phase it persists
+   (0 for the other kinds); a job write carries the empty stamp *)
+Inductive ekind := EEvict | ECreate | EDelete | EWrite.
+Record effect := mkEff { ek : ekind; eok : bool; est : stamp; eph : Z }.
+Definition stamp0 : stamp := mkStamp false 0 0 0 false 0 false false 0 0.
 
 Record state := mkState {
   sj : job; sr : option res; sp : option pod;
@@ -92,60 +98,64 @@ Inductive op :=
 | OSetBP (b : Z)
 | OTick (d : Z)
 | ORestart
-| OStale (k : Z).   (* the next reconcile reads the job as it was k job-writes ago *)
+| OStale (k : Z)    (* the next reconcile reads the job as it was k job-writes ago *)
+(* the scheduler acting on the reservation object IN PLACE (spec, labels, owners untouched): *)
+| OSched (n : Z)    (* a pending reservation is scheduled on node n (reservationutil.SetReservationAvailable) *)
+| OAlloc (u : Z).   (* pod u is allocated from the available reservation (reservation controller syncStatus):
+                       CurrentOwners := [u], and the phase becomes Succeeded iff the reservation is allocate-once *)
 
 (* ---- job setters ---- *)
 Definition set_puid (j : job) (v : Z) : job :=
-  mkJob (paused j) (direct j) (ttl j) (pvalid j) (owner j) v (rref j) (phase j) (sstatus j) (reason j)
+  mkJob (paused j) (direct j) (ttl j) (pvalid j) (owner j) (tmpl j) v (rref j) (phase j) (sstatus j) (reason j)
         (jnode j) (spodref j) (cRC j) (cRS j) (cEv j) (cPS j) (cPB j) (cBR j) (cRB j).
 Definition set_rref (j : job) (v : bool) : job :=
-  mkJob (paused j) (direct j) (ttl j) (pvalid j) (owner j) (puid j) v (phase j) (sstatus j) (reason j)
+  mkJob (paused j) (direct j) (ttl j) (pvalid j) (owner j) (tmpl j) (puid j) v (phase j) (sstatus j) (reason j)
         (jnode j) (spodref j) (cRC j) (cRS j) (cEv j) (cPS j) (cPB j) (cBR j) (cRB j).
 Definition set_phase (j : job) (v : Z) : job :=
-  mkJob (paused j) (direct j) (ttl j) (pvalid j) (owner j) (puid j) (rref j) v (sstatus j) (reason j)
+  mkJob (paused j) (direct j) (ttl j) (pvalid j) (owner j) (tmpl j) (puid j) (rref j) v (sstatus j) (reason j)
         (jnode j) (spodref j) (cRC j) (cRS j) (cEv j) (cPS j) (cPB j) (cBR j) (cRB j).
 (* abort*: phase Failed with a reason (Status.Status untouched) *)
 Definition set_failed (j : job) (rs : Z) : job :=
-  mkJob (paused j) (direct j) (ttl j) (pvalid j) (owner j) (puid j) (rref j) PH_FAILED (sstatus j) rs
+  mkJob (paused j) (direct j) (ttl j) (pvalid j) (owner j) (tmpl j) (puid j) (rref j) PH_FAILED (sstatus j) rs
         (jnode j) (spodref j) (cRC j) (cRS j) (cEv j) (cPS j) (cPB j) (cBR j) (cRB j).
 (* phase Succeeded, status Complete, reason cleared *)
 Definition set_complete (j : job) : job :=
-  mkJob (paused j) (direct j) (ttl j) (pvalid j) (owner j) (puid j) (rref j) PH_SUCCEEDED SS_COMPLETE RS_NONE
+  mkJob (paused j) (direct j) (ttl j) (pvalid j) (owner j) (tmpl j) (puid j) (rref j) PH_SUCCEEDED SS_COMPLETE RS_NONE
         (jnode j) (spodref j) (cRC j) (cRS j) (cEv j) (cPS j) (cPB j) (cBR j) (cRB j).
 (* updateCondition: Status.Status := condition type, Status.Reason := condition reason *)
 Definition set_sr (j : job) (ss rs : Z) : job :=
-  mkJob (paused j) (direct j) (ttl j) (pvalid j) (owner j) (puid j) (rref j) (phase j) ss rs
+  mkJob (paused j) (direct j) (ttl j) (pvalid j) (owner j) (tmpl j) (puid j) (rref j) (phase j) ss rs
         (jnode j) (spodref j) (cRC j) (cRS j) (cEv j) (cPS j) (cPB j) (cBR j) (cRB j).
 Definition set_jnode (j : job) (v : Z) : job :=
-  mkJob (paused j) (direct j) (ttl j) (pvalid j) (owner j) (puid j) (rref j) (phase j) (sstatus j) (reason j)
+  mkJob (paused j) (direct j) (ttl j) (pvalid j) (owner j) (tmpl j) (puid j) (rref j) (phase j) (sstatus j) (reason j)
         v (spodref j) (cRC j) (cRS j) (cEv j) (cPS j) (cPB j) (cBR j) (cRB j).
 Definition set_spodref (j : job) (v : Z) : job :=
-  mkJob (paused j) (direct j) (ttl j) (pvalid j) (owner j) (puid j) (rref j) (phase j) (sstatus j) (reason j)
+  mkJob (paused j) (direct j) (ttl j) (pvalid j) (owner j) (tmpl j) (puid j) (rref j) (phase j) (sstatus j) (reason j)
         (jnode j) v (cRC j) (cRS j) (cEv j) (cPS j) (cPB j) (cBR j) (cRB j).
 Definition set_cRC (j : job) (v : Z) : job :=
-  mkJob (paused j) (direct j) (ttl j) (pvalid j) (owner j) (puid j) (rref j) (phase j) (sstatus j) (reason j)
+  mkJob (paused j) (direct j) (ttl j) (pvalid j) (owner j) (tmpl j) (puid j) (rref j) (phase j) (sstatus j) (reason j)
         (jnode j) (spodref j) v (cRS j) (cEv j) (cPS j) (cPB j) (cBR j) (cRB j).
 Definition set_cRS (j : job) (v : Z) : job :=
-  mkJob (paused j) (direct j) (ttl j) (pvalid j) (owner j) (puid j) (rref j) (phase j) (sstatus j) (reason j)
+  mkJob (paused j) (direct j) (ttl j) (pvalid j) (owner j) (tmpl j) (puid j) (rref j) (phase j) (sstatus j) (reason j)
         (jnode j) (spodref j) (cRC j) v (cEv j) (cPS j) (cPB j) (cBR j) (cRB j).
 Definition set_cEv (j : job) (v : Z) : job :=
-  mkJob (paused j) (direct j) (ttl j) (pvalid j) (owner j) (puid j) (rref j) (phase j) (sstatus j) (reason j)
+  mkJob (paused j) (direct j) (ttl j) (pvalid j) (owner j) (tmpl j) (puid j) (rref j) (phase j) (sstatus j) (reason j)
         (jnode j) (spodref j) (cRC j) (cRS j) v (cPS j) (cPB j) (cBR j) (cRB j).
 Definition set_cPS (j : job) (v : Z) : job :=
-  mkJob (paused j) (direct j) (ttl j) (pvalid j) (owner j) (puid j) (rref j) (phase j) (sstatus j) (reason j)
+  mkJob (paused j) (direct j) (ttl j) (pvalid j) (owner j) (tmpl j) (puid j) (rref j) (phase j) (sstatus j) (reason j)
         (jnode j) (spodref j) (cRC j) (cRS j) (cEv j) v (cPB j) (cBR j) (cRB j).
 Definition set_cPB (j : job) (v : Z) : job :=
-  mkJob (paused j) (direct j) (ttl j) (pvalid j) (owner j) (puid j) (rref j) (phase j) (sstatus j) (reason j)
+  mkJob (paused j) (direct j) (ttl j) (pvalid j) (owner j) (tmpl j) (puid j) (rref j) (phase j) (sstatus j) (reason j)
         (jnode j) (spodref j) (cRC j) (cRS j) (cEv j) (cPS j) v (cBR j) (cRB j).
 Definition set_cBR (j : job) (v : Z) : job :=
-  mkJob (paused j) (direct j) (ttl j) (pvalid j) (owner j) (puid j) (rref j) (phase j) (sstatus j) (reason j)
+  mkJob (paused j) (direct j) (ttl j) (pvalid j) (owner j) (tmpl j) (puid j) (rref j) (phase j) (sstatus j) (reason j)
         (jnode j) (spodref j) (cRC j) (cRS j) (cEv j) (cPS j) (cPB j) v (cRB j).
 Definition set_cRB (j : job) (v : Z) : job :=
-  mkJob (paused j) (direct j) (ttl j) (pvalid j) (owner j) (puid j) (rref j) (phase j) (sstatus j) (reason j)
+  mkJob (paused j) (direct j) (ttl j) (pvalid j) (owner j) (tmpl j) (puid j) (rref j) (phase j) (sstatus j) (reason j)
         (jnode j) (spodref j) (cRC j) (cRS j) (cEv j) (cPS j) (cPB j) (cBR j) v.
 
 Definition set_rlabel (r : res) (v : bool) : res :=
-  mkRes v (rphase r) (rnode r) (rsched r) (rexpired r) (rowner r) (rbound r) (rneedp r) (rpdone r).
+  mkRes v (rphase r) (rnode r) (rsched r) (rexpired r) (rowner r) (rbound r) (rneedp r) (rpdone r) (ronce r).
 
 (* ---- reservation predicates (reservation/reservation.go) ---- *)
 Definition res_pending (r : res) : bool := (rphase r =? RP_EMPTY) || (rphase r =? RP_PENDING).
@@ -158,8 +168,24 @@ Definition res_preempted (r : res) : bool := rneedp r && rpdone r.
 (* reservation.GenerateReserveResourceOwners *)
 Definition owner_kind (p : pod) : Z :=
   if psched p =? 1 then OW_OBJECT else if pctrl p then 1 else 0.
-(* the object createReservation creates: name = job UID, order label set, empty status *)
-Definition new_res (p : pod) : res := mkRes true RP_EMPTY 0 0 false (owner_kind p) 0 false false.
+(* the object createReservation creates (reservation.CreateOrUpdateReservationOptions): name = job UID,
+   order label set, empty status; Owners of a user-supplied template are kept, otherwise generated from
+   the pod; AllocateOnce is FORCED to true whatever the template says *)
+Definition tmpl_owner (t : Z) : Z := t / 4.
+Definition new_res (j : job) (p : pod) : res :=
+  mkRes true RP_EMPTY 0 0 false (if tmpl_owner (tmpl j) =? 0 then owner_kind p else tmpl_owner (tmpl j)) 0 false false true.
+
+(* ---- the scheduler's two status transitions (environment) ---- *)
+Definition res_sched (n : Z) (r : res) : res :=
+  if ((rphase r =? RP_EMPTY) || (rphase r =? RP_PENDING)) && (0 <? n)
+  then mkRes (rlabel r) RP_AVAILABLE n SC_SCHEDULED false (rowner r) (rbound r) (rneedp r) (rpdone r) (ronce r)
+  else r.
+Definition res_alloc (u : Z) (r : res) : res :=
+  if (rphase r =? RP_AVAILABLE) && (0 <? u)
+  then if ronce r
+       then mkRes (rlabel r) RP_SUCCEEDED (rnode r) (rsched r) false (rowner r) u (rneedp r) (rpdone r) (ronce r)
+       else mkRes (rlabel r) (rphase r) (rnode r) (rsched r) (rexpired r) (rowner r) u (rneedp r) (rpdone r) (ronce r)
+  else r.
 
 (* ---- one reconcile: context threaded through the stages ---- *)
 Record ctx := mkCtx {
@@ -181,7 +207,8 @@ Definition pop (c : ctx) : bool * ctx :=
   | [] => (false, c)
   | b :: t => (b, mkCtx (cj c) (cr c) t (ce c) (cstale c) (cw c))
   end.
-Definition with_job (c : ctx) (j : job) : ctx := mkCtx j (cr c) (cf c) (ce c) (cstale c) (j :: cw c).
+Definition with_job (c : ctx) (j : job) : ctx :=
+  mkCtx j (cr c) (cf c) (ce c ++ [mkEff EWrite true stamp0 (phase j)]) (cstale c) (j :: cw c).
 Definition with_res (c : ctx) (r : option res) : ctx := mkCtx (cj c) r (cf c) (ce c) (cstale c) (cw c).
 Definition with_eff (c : ctx) (e : effect) : ctx := mkCtx (cj c) (cr c) (cf c) (ce c ++ [e]) (cstale c) (cw c).
 
@@ -217,8 +244,8 @@ Definition st_timeout (e : renv) (c : ctx) : outc :=
         | None => Go c
         | Some _ =>
             let '(fail, c') := pop c in
-            if fail then Stop (with_eff c' (mkEff EDelete false (stamp_of (cr c) (epod e))))
-            else Go (with_res (with_eff c' (mkEff EDelete true (stamp_of (cr c) (epod e)))) None)
+            if fail then Stop (with_eff c' (mkEff EDelete false (stamp_of (cr c) (epod e)) 0))
+            else Go (with_res (with_eff c' (mkEff EDelete true (stamp_of (cr c) (epod e)) 0)) None)
         end
       else Go c in
     andthen del (fun c => abort c RS_TIMEOUT).
@@ -265,7 +292,7 @@ Definition st_recheck (p : pod) (c : ctx) : outc :=
 (* the eviction call itself and the Evicting condition that remembers it *)
 Definition st_evict_call (e : renv) (c : ctx) : outc :=
   let '(fail, c') := pop c in
-  let c'' := with_eff c' (mkEff EEvict (negb fail) (stamp_of (cr c) (epod e))) in
+  let c'' := with_eff c' (mkEff EEvict (negb fail) (stamp_of (cr c) (epod e)) 0) in
   if fail then Stop c''
   else halt (updcond cEv set_cEv C_FALSE SS_EV RS_EVICTING c'').
 
@@ -298,11 +325,11 @@ Definition st_create (e : renv) (c : ctx) : outc :=
       let '(fail, c') := pop c in
       if fail then
         halt (updcond cRC set_cRC C_FALSE SS_RC RS_FAILEDCREATE
-                      (with_eff c' (mkEff ECreate false (stamp_of (cr c) (epod e)))))
+                      (with_eff c' (mkEff ECreate false (stamp_of (cr c) (epod e)) 0)))
       else
         let c'' := match cr c with
-                   | Some _ => with_eff c' (mkEff ECreate false (stamp_of (cr c) (epod e)))  (* AlreadyExists: adopt it *)
-                   | None => with_res (with_eff c' (mkEff ECreate true (stamp_of (cr c) (epod e)))) (Some (new_res p))
+                   | Some _ => with_eff c' (mkEff ECreate false (stamp_of (cr c) (epod e)) 0)  (* AlreadyExists: adopt it *)
+                   | None => with_res (with_eff c' (mkEff ECreate true (stamp_of (cr c) (epod e)) 0)) (Some (new_res (cj c) p))
                    end in
         halt (wjob c'' (set_rref (cj c'') true))
   end.
@@ -454,6 +481,8 @@ Definition step (s : state) (o : op) : state * list effect :=
   | OTick d => (mkState (sj s) (sr s) (sp s) (sbp s) (snow s + d) (sgen s) (sold s) (sver s) (sass s) (slag s), [])
   | ORestart => (mkState (sj s) (sr s) (sp s) (sbp s) (snow s) (sgen s + 1) [] (sver s) None (slag s), [])
   | OStale k => (mkState (sj s) (sr s) (sp s) (sbp s) (snow s) (sgen s) (sold s) (sver s) (sass s) k, [])
+  | OSched n => (mkState (sj s) (option_map (res_sched n) (sr s)) (sp s) (sbp s) (snow s) (sgen s) (sold s) (sver s) (sass s) (slag s), [])
+  | OAlloc u => (mkState (sj s) (option_map (res_alloc u) (sr s)) (sp s) (sbp s) (snow s) (sgen s) (sold s) (sver s) (sass s) (slag s), [])
   end.
 
 (* the history: every intermediate state and the effects of every operation *)
@@ -471,6 +500,6 @@ End Variant.
 Definition recheck_same_node : bool := true.
 
 (* the job as created: no status except possibly phase Pending *)
-Definition init_job (direct paused : bool) (ttl : Z) (pvalid : bool) (initphase : Z) (rref0 : bool) (createdby : bool) : job :=
-  mkJob paused direct ttl pvalid (if createdby then 1 else 0) 0 rref0 initphase 0 0 0 0 0 0 0 0 0 0 0.
+Definition init_job (direct paused : bool) (ttl : Z) (pvalid : bool) (initphase : Z) (rref0 : bool) (createdby : bool) (tm : Z) : job :=
+  mkJob paused direct ttl pvalid (if createdby then 1 else 0) tm 0 rref0 initphase 0 0 0 0 0 0 0 0 0 0 0.
 Definition init_state (j : job) : state := mkState j None None 0 0 0 [] 0 None 0.
